@@ -202,6 +202,9 @@ func (cfg *Config) paramExp(pe *syntax.ParamExp) (string, error) {
 			str = string(rs)
 		} // else, elems are already sliced
 	case pe.Repl != nil:
+		if !set && !indexAllElements {
+			break // an unset parameter has nothing to replace, even if the pattern matches ""
+		}
 		elems, err := cfg.replaceElems(pe.Repl, elems)
 		if err != nil {
 			return "", err
